@@ -116,8 +116,26 @@ func (p *frame) toBytes() []byte {
 	)
 }
 
+// frameHeaderLength is the size of the fixed frame header;
+// initiateFrameHeaderLength that of an initiate (REQ/RESP) frame.
+const (
+	frameHeaderLength         = 12
+	initiateFrameHeaderLength = 10
+)
+
 func fromBytes(b []byte) (*frame, error) {
+	if len(b) < frameHeaderLength {
+		// Initiate (REQ/RESP) frames have a shorter header. They are parsed
+		// here first and re-parsed by fromInitiateBytes, so pad them.
+		if len(b) < initiateFrameHeaderLength || b[1]&(1<<REQIdx|1<<RESPIdx) == 0 {
+			return nil, errFrameTooShort
+		}
+		b = append(append(make([]byte, 0, frameHeaderLength), b...), make([]byte, frameHeaderLength-len(b))...)
+	}
 	dataLength := binary.BigEndian.Uint16(b[2:4])
+	if frameHeaderLength+int(dataLength) > len(b) {
+		return nil, errFrameBadLength
+	}
 	return &frame{
 		tubeID:     b[0],
 		flags:      metaToFlags(b[1]),
